@@ -84,6 +84,7 @@ type Ctx struct {
 	maxViol  int
 	stateCap int
 	progress int64
+	always   bool
 }
 
 // Progress is read by the worker watchdog.
@@ -171,7 +172,28 @@ func (c *Ctx) mine() (bool, int64) {
 	if c.replay {
 		return c.group == c.replayGroup && idx == c.replayIndex, idx
 	}
+	if c.always {
+		return true, idx
+	}
 	return int(idx%int64(c.NShards)) == c.Shard, idx
+}
+
+// Owns tells whether this worker owns item i of a manually sharded outer
+// enumeration (used by searches whose frontier cannot be regenerated cheaply by
+// every worker). Combine with CaseAlways.
+func (c *Ctx) Owns(i int, group string) bool {
+	if c.replay {
+		return group == c.replayGroup
+	}
+	return i%c.NShards == c.Shard
+}
+
+// CaseAlways is Case for manually sharded enumerations: the case is executed by
+// whoever reaches it.
+func (c *Ctx) CaseAlways(descFn func() any, fn Check) {
+	c.always = true
+	c.Case(descFn, fn)
+	c.always = false
 }
 
 // Check is the per-case body: it returns nil if every oracle clause held.
